@@ -473,10 +473,38 @@ func (x *Unit) readGlobal(st *State, o types.Object) Val {
 		// sentinel errors and other package-level interface values are assumed initialised (non-nil)
 		if isIface(o.Type()) {
 			x.fact(Cmp(">", IfaceTyp(v.T), IntLit(0)))
+			if types.Identical(o.Type(), types.Universe.Lookup("error").Type()) {
+				x.sentinelFacts(v.T)
+			}
 		}
 	}
 	st.ghost[k] = v
 	return v
+}
+
+// sentinelFacts: distinct package-level error variables hold distinct values, created before the function was entered.
+func (x *Unit) sentinelFacts(v T) {
+	for _, other := range x.errGlobals {
+		x.fact(Not(Eq(v, other)))
+	}
+	x.errGlobals = append(x.errGlobals, v)
+	if x.entry != nil {
+		x.fact(And(Cmp(">=", IfaceVal(v), IntLit(0)), Cmp("<=", x.proot(IfaceVal(v)), x.entry.alloc)))
+	}
+	x.note("package-level error variables (sentinel errors) are initialised, pairwise distinct and never reassigned")
+}
+
+// namedSentinel: a sentinel error of another package that the program text does not mention (context.Canceled ...).
+func (x *Unit) namedSentinel(name string) T {
+	k := "var:" + name
+	if v, ok := x.entry.ghost[k]; ok {
+		return v.T
+	}
+	v := Val{x.fresh("G_"+name, SIface), types.Universe.Lookup("error").Type()}
+	x.entry.ghost[k] = v
+	x.fact(Cmp(">", IfaceTyp(v.T), IntLit(0)))
+	x.sentinelFacts(v.T)
+	return v.T
 }
 
 func (x *Unit) readVar(st *State, o types.Object) Val {
